@@ -11,6 +11,18 @@ use std::io::{BufReader, Cursor, Read, Seek, Write};
 use zip::ZipWriter;
 
 /// What a consumer observes from an archive: per entry metadata + content-or-error.
+impl EObs {
+    pub fn failed() -> EObs {
+        EObs { name: "<failed>".into(), size: u64::MAX, csize: 0, crc: 0, method: 0, dos: (0, 0), mode: None, content: Err(()) }
+    }
+    pub fn is_failed(&self) -> bool {
+        self.size == u64::MAX || self.name.starts_with("<open failed")
+    }
+    pub fn content_failed(&self) -> bool {
+        self.content.is_err()
+    }
+}
+
 #[derive(Debug, PartialEq, Eq, Clone)]
 pub struct EObs {
     name: String,
